@@ -19,6 +19,23 @@ structure FieldParam where
   sps : List Int                       -- the sparse form f[] as written in the source (empty if none)
 deriving Repr
 
+/-- twist over Fp2 = Fp[u]/(u² − qnr) that carries the second pairing group (src/epx/relic_ep2_curve.c); `qnr` is the
+    non-residue the library derives for the prime and `f2` a certificate: 3·f2² = 4p² − t2² with t2 the trace over Fp2 -/
+structure TwistParam where
+  a0 : Nat
+  a1 : Nat
+  b0 : Nat
+  b1 : Nat
+  x0 : Nat
+  x1 : Nat
+  y0 : Nat
+  y1 : Nat
+  r : Nat
+  h : Nat
+  qnr : Int
+  f2 : Nat
+deriving Repr
+
 structure CurveParam where
   name : String
   id : Nat
@@ -32,6 +49,8 @@ structure CurveParam where
   plain : Bool
   endom : Bool
   pairf : String                       -- "" or the family (EP_BN, …)
+  level : Nat := 0                     -- what ep_param_level() returns for this identifier (0 = not listed)
+  twist : Option TwistParam := none    -- the table entry of ep2_curve_set_twist, if the curve has one
 deriving Repr
 
 /-- Barreto–Naehrig family -/
@@ -166,5 +185,60 @@ def bnOk (f : FieldParam) (c : CurveParam) : Bool :=
   match f.kind with
   | .family _ x => (bnR x).toNat == c.r && c.h == 1 && embedDeg f.prime c.r 12
   | .literal _ => false
+
+/-- smallest k ≤ bound with p^k ≡ 1 (mod r), if any: the embedding degree when it is small -/
+def embedSmall (p r bound : Nat) : Option Nat :=
+  (List.range (bound + 1)).find? fun k => k > 0 && powMod p k r == 1 % r
+
+/-- embedding degree of each pairing-friendly family the library knows -/
+def familyDegree (fam : String) : Nat :=
+  if fam == "EP_BN" || fam == "EP_B12" then 12
+  else if fam == "EP_B24" then 24 else if fam == "EP_B48" then 48 else if fam == "EP_K16" || fam == "EP_N16" || fam == "EP_FM16" then 16
+  else if fam == "EP_K18" || fam == "EP_SG18" || fam == "EP_FM18" then 18 else if fam == "EP_OT8" || fam == "EP_GMT8" then 8
+  else if fam == "EP_SG54" then 54 else if fam == "EP_SS1" then 1 else if fam == "EP_SS2" then 2 else 0
+
+/-- the advertised family / embedding degree matches the parameters, in both directions: a curve whose order has a small
+    embedding degree IS pairing-friendly and must be declared so (with the right degree); any other must not be -/
+def embedConsistent (p : Nat) (c : CurveParam) : Bool :=
+  match embedSmall p c.r 60 with
+  | none => c.pairf == ""
+  | some k => c.pairf != "" && familyDegree c.pairf == k
+
+def bitLen (n : Nat) : Nat := if n = 0 then 0 else Nat.log2 n + 1
+
+/-- the advertised security level matches the parameters: generic-group bound 2·level ≤ bits(r); for curves without a
+    small embedding degree it is the generic-group level (within the rounding the library uses); parameter sets of the same
+    family with the same field and order sizes advertise the same level -/
+def levelConsistent (all : List (Nat × CurveParam)) (p : Nat) (c : CurveParam) : Bool :=
+  c.level > 0 && 2 * c.level ≤ bitLen c.r &&
+  (c.pairf != "" || bitLen c.r ≤ 2 * c.level + 16) &&
+  all.all fun (p', c') =>
+    !(c'.pairf == c.pairf && bitLen p' == bitLen p && bitLen c'.r == bitLen c.r) || c'.level == c.level
+
+/-- Fp2 = Fp[u]/(u² − q) on pairs -/
+def f2mul (p q : Nat) (a b : Nat × Nat) : Nat × Nat :=
+  ((a.1 * b.1 + q * (a.2 * b.2 % p)) % p, (a.1 * b.2 + a.2 * b.1) % p)
+def f2add (p : Nat) (a b : Nat × Nat) : Nat × Nat := ((a.1 + b.1) % p, (a.2 + b.2) % p)
+
+/-- the twist table entry is consistent with the base curve: the extension is a field, the generator satisfies the twist
+    equation with canonical coordinates, the order is the order of the base group, and h·r is one of the six orders a twist
+    of E over Fp2 can have (t = trace of E over Fp, t2 = t² − 2p, 3 f2² = 4p² − t2²; orders p² + 1 − t′ with
+    t′ ∈ {±t2, ±(t2 + 3 f2)/2, ±(t2 − 3 f2)/2}) -/
+def twistOk (p : Nat) (c : CurveParam) (t : TwistParam) : Bool :=
+  let q := (t.qnr % (p : Int)).toNat
+  let x := (t.x0, t.x1)
+  let y := (t.y0, t.y1)
+  let lhs := f2mul p q y y
+  let rhs := f2add p (f2add p (f2mul p q (f2mul p q x x) x) (f2mul p q (t.a0, t.a1) x)) (t.b0 % p, t.b1 % p)
+  let tr : Int := (p : Int) + 1 - (c.h * c.r : Nat)
+  let t2 : Int := tr * tr - 2 * p
+  let f2 : Int := t.f2
+  let N : Int := (t.h * t.r : Nat)
+  let tp : Int := (p : Int) * p + 1 - N
+  powMod q ((p - 1) / 2) p == p - 1 &&
+  t.x0 < p && t.x1 < p && t.y0 < p && t.y1 < p && lhs == rhs &&
+  t.r == c.r &&
+  3 * f2 * f2 == 4 * (p : Int) * p - t2 * t2 &&
+  (tp == t2 || tp == -t2 || 2 * tp == t2 + 3 * f2 || 2 * tp == -(t2 + 3 * f2) || 2 * tp == t2 - 3 * f2 || 2 * tp == -(t2 - 3 * f2))
 
 end Relic.Model.Param
